@@ -147,7 +147,8 @@ class Resource:
                 PROCESS_EXECUTABLE_NAME, None
             )
             if process_executable_name:
-                default_service_name += ":" + process_executable_name
+                # any valid attribute value, not only text
+                default_service_name += ":" + str(process_executable_name)
             else:
                 default_service_name += ":python"
             resource = resource.merge(
